@@ -38,3 +38,11 @@ def extend(claim, NA):
           'Solver-based check of the real code: the limiter methods are translated from the current AST into z3 real arithmetic; an inductive step with symbolic limit/debt/bytes/latency (unsat), a K-step BMC over all windows, the commands\' chunk-size expressions over unbounded integers, and a two-stream model whose sat model (aggregate 2L) is the recorded known finding F9; transparency by CrossHair with symbolic bytes/offsets.',
           'floats as reals; sleep overshoot <= 0.01 s; multi-step queries for L in {4,1000,2^20,10^9}; L<4 outside; F9 (several overlapping streams) is a known finding.',
           'Python AST -> SMT (z3 reals) inductive step + bounded model checking; CrossHair for transparency', '3/C20')
+    claim('C03',
+          'Bounded exhaustive check driven by the solver (no arithmetic in this property): crash index over the backend mutations of snapshot/delete/clean, index of one permanently failing call, latency pattern and concurrency are digits of a symbolic vector realize()d by z3 through CrossHair; the real commands run on an in-memory backend and fresh clients examine what survives. For the local backend the crash point lies inside upload/upload_stream.',
+          'crash granularity: backend calls (in-memory) and 8 points inside the local upload; rename atomic; no fsync reasoning; inline executor for worker pools.',
+          'solver-exhausted crash/fault vectors (CrossHair realize + z3) over the real command bodies and the real local backend', '3/C03')
+    claim('C09',
+          'Schedules as solver variables over the real code: restore thread bodies lifted from the source and run as cooperative generators under every schedule prefix; the real slot wrappers under latency/failure vectors; snapshot() recompiled from the source with the producer thread as a generator and pre-emption hooks inside the upload worker (incl. between the operands of its loop condition), compared with the sequential run.',
+          'pre-emption at statement boundaries outside lock bodies (+ worker loop condition operands); schedule prefixes of length 10/7; 12 producer patterns x 5 latency patterns; real OS threads not explored.',
+          'solver-exhausted schedule vectors (CrossHair realize + z3) over AST-instrumented thread bodies of the real code', '3/C09')
